@@ -4,7 +4,7 @@
 set -u
 id="$1"
 . /verif/env.sh
-cd /tmp/mut/$id || exit 2
+cd ${MUTROOT:-/tmp/mut}/$id || exit 2
 [ -s zz_out/patch.diff ] || { echo "no patch"; exit 2; }
 pk=$(go list ./... 2>/dev/null | grep -v zz_demo | grep -v zz_out)
 if go test -vet=off -count=1 $pk > /tmp/confirm_$id.suite 2>&1; then echo "suite-with-change: PASS"; else echo "suite-with-change: FAIL"; grep -v "^ok" /tmp/confirm_$id.suite | head -5; fi
